@@ -706,4 +706,6 @@ pub enum CqlTypeParseError {
     TypeNotImplemented(u16),
     #[error("Failed to parse custom CQL type: {0}")]
     CustomTypeParseError(CustomTypeParseError),
+    #[error("CQL type is nested deeper than the supported limit of {0} levels")]
+    TypeNestingTooDeep(usize),
 }
